@@ -80,7 +80,7 @@ MODES = {
 }
 REQUIRED_MODES = ["heading", "noheading", "context", "count", "files_with_matches", "json", "files"]
 PATTERNS = {"many": "foo", "few": "needle", "none": "zzzq"}
-VIOLATION_CLAUSES = {"interleaved", "missing_file", "duplicate_file", "extra_file", "separator", "status",
+VIOLATION_CLAUSES = {"single_thread_blocks", "interleaved", "missing_file", "duplicate_file", "extra_file", "separator", "status",
                      "sort_not_deterministic", "sort_differs"}
 
 PRE_SCRIPT = b"""#!/bin/sh
@@ -509,16 +509,27 @@ def judge_trace(chk, recs, tag, stats):
 def _account(chk, recs, tag, stats, verdicts):
     """Book-keeping only: map TLC's verdict for every record to validated / violation."""
     ref_order = None
+    bad_groups = set()
     for i, (rec, d) in enumerate(recs):
         if rec["k"] == "group":
             continue
         v = verdicts[i + 1]
         scn = d["scn"]
+        if scn["gid"] in bad_groups:
+            continue
         verdict = v["verdict"]
         if d["kind"] == "ref":
             if verdict != "ok":
-                raise vlib.ToolError("the -j1 output of group %s (%s) is not a concatenation of the single-file -j1 outputs "
-                                     "(stopped at line %d): reference unusable" % (scn["gid"], scn["mode"], v["pos"]))
+                # the blocks the statement speaks of are not well defined: what -j1 prints for a file depends on the files the
+                # (single) worker searched before it.  Every file's block is its output when searched alone - on a correct tree
+                # this never differs - so this is reported, and the runs of the group cannot be judged
+                bad_groups.add(scn["gid"])
+                report(chk, {"clause": "single_thread_blocks", "mode": scn["mode"], "threads": 1, "stdout": scn.get("delivery") or "pipe"},
+                       {"why": "the -j1 output of the whole tree is not the concatenation of the -j1 outputs of its files searched one "
+                               "by one (TLC, OutputTrace: stopped at output line %d after %d blocks): a file's block depends on what "
+                               "the worker searched before" % (v["pos"], len(v["order"])),
+                        "scenario": scn, "kind": "ref", "threads": 1})
+                continue
             ref_order = v["order"]
             stats["ref_blocks"].append(len(ref_order))
             continue
